@@ -41,6 +41,10 @@ DSec(n, fl, sub)  == Decl(n, "sec",   fl,       <<>>,  sub,  {}, "")
 DFunc(n, fn)      == Decl(n, "func",  {},       <<>>,  <<>>, {}, fn)
 DPtr(n)           == Decl(n, "ptr",   {},       <<>>,  <<>>, {"parse"}, "")
 DPtrList(n)       == Decl(n, "ptr",   {"LIST"}, <<>>,  <<>>, {"parse"}, "")
+(* CFG_SIMPLE_INT/FLOAT/BOOL/STR: the value lives in a variable of the caller.  "SIMPLE" is a  *)
+(* model-level marker (not a CFGF_ flag); init is what the caller's variable holds when the   *)
+(* context is created - the library never applies a default to it.                           *)
+DSimple(n, ty, init) == Decl(n, ty, {"SIMPLE"}, <<init>>, <<>>, {}, "")
 WithFlags(d, fl)  == [d EXCEPT !.flags = @ \cup fl]
 WithCb(d, cb)     == [d EXCEPT !.cb = @ \cup cb]
 
@@ -66,10 +70,11 @@ InitOpt(d) ==
    vals  |-> IF d.type = "sec"
                THEN IF "MULTI" \in d.flags THEN <<>>
                     ELSE <<MkSec(Null, InitOpts(d.sub))>>
-               ELSE IF "NODEFAULT" \in d.flags THEN <<>> ELSE d.def,
+               ELSE IF "NODEFAULT" \in d.flags /\ "SIMPLE" \notin d.flags THEN <<>> ELSE d.def,
    (* CFGF_RESET: the option still holds its pristine default *)
    reset |-> /\ d.type # "sec"
              /\ "NODEFAULT" \notin d.flags
+             /\ "SIMPLE" \notin d.flags
              /\ ~("LIST" \in d.flags /\ d.def = <<>>),
    (* CFGF_MODIFIED *)
    mod   |-> d.type = "sec" /\ "MULTI" \notin d.flags,
